@@ -501,8 +501,18 @@ package sio
 //@   opt safety off
 //@   requires s.manager != nil
 //@   ghost flushed int = 0
+// C03 (buffered events): an ack id is recorded as answered only where the answer is sent - by this function for a
+// handler WITHOUT an ack function (the empty acknowledgement below), or by the sendAck closure when the handler's
+// ack function is called, possibly after the handler has returned: recording it for a handler that has an ack
+// function and has not called it yet would drop its reply.
+//@   ghost lasthas bool = false
+//@   ghost autoacks int = 0
 //@   callsite callEvent skip        // assumption: handlers of buffered events do not touch the offline send buffer
+//@     updateafter lasthas = result
+//@   onupdate ackIDs
+//@     requires value ==> !lasthas [C03.buffered.ack.recorded.only.when.sent.here]
 //@   callsite sendAckPacket skip
+//@     requires !lasthas && len(arg1) == 0 [C03.buffered.empty.ack.only.without.ack.function]
 //@   callsite (*Manager).packet
 //@     requires len(arg0) == len(s.sendBuffer) && forall k int :: 0 <= k && k < len(arg0) ==> arg0[k] == s.sendBuffer[k].packet [C15.buf.flush.order]
 //@     update flushed = flushed + 1
@@ -714,6 +724,23 @@ package sio
 //@     update sets = sets + 1
 //@   callsite (*nspStore).set
 //@     requires adderr == nil && added == 1 && recv == c.nsps && arg0 == addnsp [C12.connect.admit.nsp]
+// C06: admission may outlast the connection (slow middleware). AFTER the socket is registered on the connection,
+// connect asks whether the connection has closed meanwhile, and if so disconnects that very socket with the reason
+// the connection closed with (onClose$1 below raises the mark BEFORE it collects the registered sockets, so every
+// socket is seen by one of the two).
+//@   ghost asked int = 0
+//@   ghost wasclosed bool = false
+//@   ghost closedwith Reason = ""
+//@   ghost late int = 0
+//@   callsite (*serverConn).closedWith skip
+//@     requires sets == 1 && recv == c [C06.connect.asks.after.registering]
+//@     update asked = asked + 1
+//@     updateafter wasclosed = result1
+//@     updateafter closedwith = result0
+//@   callsite (*serverSocket).onClose skip
+//@     requires asked == 1 && wasclosed && recv == addsock && arg0 == closedwith [C06.connect.disconnects.the.late.socket]
+//@     update late = late + 1
+//@   ensures sets == 1 ==> asked == 1 && (wasclosed ==> late == 1) [C06.connect.late.socket.never.stays]
 //@   ensures adderr != nil ==> errs == 1 && sets == 0 [C12.connect.reject]
 //@   ensures added == 1 && adderr == nil ==> sets == 1 && errs == 0 [C12.connect.accept]
 
@@ -945,6 +972,7 @@ package sio
 //@   ghost closed int = 0
 //@   callsite (*serverSocketStore).getAndRemoveAll skip
 //@     requires recv == c.sockets [C06.conn.drains.own]
+//@     requires c.closed && c.closeReason == reason && !wheld(c.closedMu) [C06.conn.marked.closed.before.collecting]
 //@     updateafter got = len(result)
 //@   callsite (*serverSocket).onClose skip
 //@     requires arg0 == reason [C06.conn.reason]
@@ -1157,6 +1185,7 @@ package sio
 //@   guarded_by (acksMu) acks, ackID
 //@   guarded_by (activeMu) active, subDeregister
 //@ type serverConn
+//@   guarded_by (closedMu) closed, closeReason
 //@ type serverSocket
 //@   guarded_by (connectedMu) connected
 //@   guarded_by (acksMu) acks
@@ -1641,3 +1670,7 @@ package sio
 //@     requires recv == e.socket && arg0 == eventName && arg1 == e.timeout && arg2 == e.volatile && !arg3 && arg4 == v && emits == 0 [C15.emitter.emit.passes.its.settings]
 //@     update emits = emits + 1
 //@   ensures emits == 1 [C15.emitter.emits.once]
+
+//@ func (*serverConn).closedWith
+//@   requires c != nil
+//@   ensures closed == c.closed && reason == c.closeReason [C06.conn.closed.mark.read]
